@@ -685,7 +685,7 @@ def run(ctx):
     ctx.trust("theorem: the Kalman recursion is the conditional mean / BLUE of the linear-Gaussian model (Maybeck vol. 1 ch. 5) -- assumed", "C07, C08 obligations (prerequisites)", "z3, sympy")
     ctx.assume("equality with the one-shot Gauss-Markov solution is inferred from the structure proof plus the theorem; it is observed only by the bounded stand-in")
     ctx.guard(_p0, ctx, py)
-    C08._joint(ctx, py)
+    ctx.guard(C08._joint, ctx, py)
     ctx.guard(_recursion, ctx, py)
     ctx.guard(_model_inputs, ctx, py)
     ctx.guard(_result, ctx, py)
